@@ -17,6 +17,9 @@ func pow2(n int) *big.Int { return new(big.Int).Lsh(big.NewInt(1), uint(n)) }
 // modulus away from the range (add/sub of in-range operands).
 func wrapInt(t *Term, w int, signed bool, far bool) *Term {
 	lo, hi := intRange(w, signed)
+	if ilo, ihi, ok := interval(t); ok && ilo.Cmp(lo) >= 0 && ihi.Cmp(hi) <= 0 {
+		return t
+	}
 	if t.IsLit() {
 		m := pow2(w)
 		x := new(big.Int).Mod(t.IntVal, m)
@@ -434,4 +437,111 @@ func (ex *Exec) unop(st *State, u *ssa.UnOp, x *Val) *Val {
 		return scalar(Sub(IntLitBig(new(big.Int).Sub(pow2(w), big.NewInt(1))), a))
 	}
 	panic(oos("unop " + u.Op.String()))
+}
+
+// ---- cheap interval analysis (typing facts only) ----
+
+// termBounds records universally valid typing bounds of atomic terms:
+// integer-typed values lie in their type's range, slice headers in [0, 2^47].
+var termBounds = map[string][2]*big.Int{}
+
+func noteBounds(t *Term, lo, hi *big.Int) {
+	if t.IsLit() || t.Sort != SInt {
+		return
+	}
+	k := t.String()
+	if old, ok := termBounds[k]; ok {
+		// keep the tighter one
+		if old[0].Cmp(lo) > 0 {
+			lo = old[0]
+		}
+		if old[1].Cmp(hi) < 0 {
+			hi = old[1]
+		}
+	}
+	termBounds[k] = [2]*big.Int{lo, hi}
+}
+
+func interval(t *Term) (lo, hi *big.Int, ok bool) {
+	if t.Sort != SInt {
+		return nil, nil, false
+	}
+	if t.IsLit() {
+		return t.IntVal, t.IntVal, true
+	}
+	if b, ok := termBounds[t.String()]; ok {
+		return b[0], b[1], true
+	}
+	switch t.Op {
+	case "+":
+		lo, hi = big.NewInt(0), big.NewInt(0)
+		for _, a := range t.Args {
+			l, h, ok := interval(a)
+			if !ok {
+				return nil, nil, false
+			}
+			lo = new(big.Int).Add(lo, l)
+			hi = new(big.Int).Add(hi, h)
+		}
+		return lo, hi, true
+	case "-":
+		if len(t.Args) == 1 {
+			l, h, ok := interval(t.Args[0])
+			if !ok {
+				return nil, nil, false
+			}
+			return new(big.Int).Neg(h), new(big.Int).Neg(l), true
+		}
+		l, h, ok := interval(t.Args[0])
+		if !ok {
+			return nil, nil, false
+		}
+		lo, hi = l, h
+		for _, a := range t.Args[1:] {
+			l2, h2, ok := interval(a)
+			if !ok {
+				return nil, nil, false
+			}
+			lo = new(big.Int).Sub(lo, h2)
+			hi = new(big.Int).Sub(hi, l2)
+		}
+		return lo, hi, true
+	case "ite":
+		l1, h1, ok1 := interval(t.Args[1])
+		l2, h2, ok2 := interval(t.Args[2])
+		if !ok1 || !ok2 {
+			return nil, nil, false
+		}
+		if l2.Cmp(l1) < 0 {
+			l1 = l2
+		}
+		if h2.Cmp(h1) > 0 {
+			h1 = h2
+		}
+		return l1, h1, true
+	case "*":
+		if len(t.Args) == 2 {
+			l1, h1, ok1 := interval(t.Args[0])
+			l2, h2, ok2 := interval(t.Args[1])
+			if !ok1 || !ok2 {
+				return nil, nil, false
+			}
+			cands := []*big.Int{new(big.Int).Mul(l1, l2), new(big.Int).Mul(l1, h2), new(big.Int).Mul(h1, l2), new(big.Int).Mul(h1, h2)}
+			lo, hi = cands[0], cands[0]
+			for _, c := range cands[1:] {
+				if c.Cmp(lo) < 0 {
+					lo = c
+				}
+				if c.Cmp(hi) > 0 {
+					hi = c
+				}
+			}
+			return lo, hi, true
+		}
+	case "mod":
+		if t.Args[1].IsLit() && t.Args[1].IntVal.Sign() > 0 {
+			return big.NewInt(0), new(big.Int).Sub(t.Args[1].IntVal, big.NewInt(1)), true
+		}
+	}
+	return nil, nil, false
 }
